@@ -126,7 +126,7 @@ func runC16(args []string) error {
 	}
 	// packet headers ending in 0xFF (see C04 'lenff')
 	for _, wh := range [][2]int{{24, 10}, {10, 24}, {20, 12}, {16, 15}, {30, 8}, {12, 20}} {
-		for k := 0; k < 10; k++ {
+		for k := 0; k < 40; k++ {
 			c := rtCase{API: "j2k", Lossless: true, W: wh[0], H: wh[1], C: 1, P: 8, Levels: 0, CBW: 64, CBH: 64, Layers: 1, Cls: "noise"}
 			frame(c, genJ2KSamples(r, "noise", c.W, c.H, 1, 8))
 		}
